@@ -307,6 +307,12 @@ def run(ctx):
     f0 = I.call(fm, [dict(comp)], {})
     m = I.instantiate(Mol, ["x", f0], {"cell_volume": V}, name="molecule", open_attrs=())
     lab = I.getattr(m, "labile_formula")
+    # a parsed formula handed to Molecule stays the caller's: the molecule works on a formula of its own
+    fmine = I.call(fm, [dict(comp)], {"density": rho})
+    m_mine = I.instantiate(Mol, ["mine", fmine], {"cell_volume": V}, name="molecule_of_mine", open_attrs=())
+    ctx.check(I.getattr(m_mine, "labile_formula") is not fmine, "R4", "Molecule(name, Formula) keeps a formula of its own, not the caller's object",
+              "labile_formula is the very object the caller passed in", s_mol)
+    eq(ctx, "R4", "Molecule(name, Formula, cell_volume=V) leaves the density of the caller's formula as it was", I.getattr(fmine, "density"), rho, s_mol)
     eq(ctx, "R4", "Molecule density = mass / cell volume", I.getattr(lab, "density"), sp.Integer(10) ** 24 * M0 / NA / V, s_mol)
     lam0 = I.global_name("nsf", "ABSORPTION_WAVELENGTH")
     kw0 = {"table": w.table}
@@ -352,6 +358,6 @@ def run(ctx):
         eq(ctx, "R4", "first molecule of a repeated formula string: .sld is still the SLD nsf gives for its formula", sldA, refA[0], s_mol)
     finally:
         COMPOUND_STRINGS.pop("C6H12O6<probe>", None)
-    ctx.floor("R4", 13)
+    ctx.floor("R4", 15)
     ctx.unit("functions_inlined", len(set(I.calls)))
     ctx.assume("the parser turns 'H2O@0.9982n' / 'D2O@0.9982n' into H2O / D2O at natural density 0.9982 (C01, C12-R2)")
